@@ -68,7 +68,13 @@ func main() {
 		must(os.MkdirAll(*outLean, 0o755))
 		must(os.WriteFile(filepath.Join(*outLean, "Consts.lean"), []byte(emitConsts(pkgs)), 0o644))
 	}
-	_ = outInv
+	if *outLean != "" {
+		must(os.WriteFile(filepath.Join(*outLean, "Facts.lean"), []byte(emitFacts(pkgs)), 0o644))
+	}
+	if *outInv != "" {
+		must(os.MkdirAll(filepath.Dir(*outInv), 0o755))
+		must(os.WriteFile(*outInv, []byte(emitInventory(pkgs)), 0o644))
+	}
 }
 
 func must(err error) {
